@@ -45,6 +45,15 @@ PARTIALS.update({
     # partials that keep state while they render: what a reused (instead of fresh) context would leak
     "st": "<{{ s }}{% assign s = 'set' %}{% increment c %}{% cycle 'a', 'b' %}{% capture k %}K{{ k }}{% endcapture %}{{ k }}>",
     "stv": "<{{ v }}{% assign v = 'over' %}{{ forloop.index }}>",
+    # interrupts that reach a loop from inside a partial, required blocks, circular / missing parents
+    "brk": "{% if i == x %}{% break %}{% endif %}",
+    "cnt": "{% if i == x %}{% continue %}{% endif %}",
+    "reqbase": "<rb>{% block a required %}{% endblock %}|{% block b %}B{% endblock %}</rb>",
+    "reqleaf": "{% extends 'reqbase' %}{% block b %}b{% endblock %}",
+    "reqok": "{% extends 'reqbase' %}{% block a %}a{{ x }}{% endblock %}",
+    "cyc1": "{% extends 'cyc2' %}{% block a %}1{% endblock %}",
+    "cyc2": "{% extends 'cyc1' %}{% block a %}2{% endblock %}",
+    "orphan": "{% extends 'nosuchparent' %}{% block a %}o{% endblock %}",
 })
 
 DEDICATED: list[str] = [
@@ -89,6 +98,27 @@ DEDICATED: list[str] = [
     "{% if nosuch and nosuch < 1 %}a{% else %}b{% endif %}|{% if x or nosuch < 1 %}c{% else %}d{% endif %}",
     "{% if y.zz and y.zz >= x %}a{% else %}b{% endif %}{% unless x or a > x %}c{% else %}d{% endunless %}",
     "{{ 'T' if x or a < 1 else 'F' }}{% if false and a > 1 %}a{% elsif nil and y < 1 %}b{% else %}c{% endif %}",
+    # found with tools/async_cov.py: lines of async code paths that no case above executed
+    "{% tablerow i in a %}{{ i }}{{ tablerowloop.col }}{{ tablerowloop.row }}{{ tablerowloop.col_last }}{% endtablerow %}|{% tablerow i in (1..x) %}{{ i }}{% endtablerow %}",
+    "{% for j in y.b %}[{% tablerow i in a cols: 2 %}{% include 'brk' %}{{ i }}{% endtablerow %}]{% endfor %}",
+    "{% for j in y.b %}[{% tablerow i in a %}{% include 'cnt' %}{{ i }}{% endtablerow %}]{% endfor %}",
+    "{% for i in a %}{% include 'brk' %}{{ i }}{% endfor %}|{% for i in a %}{% include 'cnt' %}{{ i }}{% endfor %}",
+    "{% cycle 'g': 1, 2, 3 %}{% cycle 'g': 1, 2, 3 %}{% cycle 'g': 1 %}{% cycle 'g': 1 %}{% cycle 1, 2, 3 %}{% cycle 1, 2, 3 %}{% cycle 1 %}",
+    "{% macro m p, q %}[{{ p }}|{{ q }}|{{ q | default: 'dq' }}]{% endmacro %}{% call m 1 %}{% call m %}{% call m q: x %}",
+    "{% snippet s %}S{{ x }}{{ v }}{% endsnippet %}{% render s %}{% render s, v: 2 %}{% render s for a as v %}",
+    "{% render nosuch %}",
+    "{% render x %}",
+    "{% assign s = 'p' %}{% render s %}",
+    "{% block a required %}{% endblock %}",
+    "{% include 'reqleaf' %}",
+    "{% extends 'reqbase' %}{% block b %}page{% endblock %}",
+    "{% extends 'reqbase' %}{% block a %}page{{ x }}{% endblock %}",
+    "{% include 'reqok' %}|{% render 'reqok' %}",
+    "{% extends 'cyc1' %}{% block a %}0{% endblock %}",
+    "{% include 'cyc2' %}",
+    "{% extends 'orphan' %}",
+    "{% include 'orphan' %}",
+    "{% extends 'nosuchparent' %}{% block a %}{{ x }}{% endblock %}",
     # inheritance state within one render: an inheriting partial, then the same block names without inheritance
     "{% include 'leaf' %}|{% include 'base' %}|{% render 'leaf' %}|{% render 'base' %}",
     "{% include 'mid' %}{% block a %}page-a{{ x }}{% endblock %}{% block b %}page-b{% endblock %}",
@@ -143,7 +173,10 @@ class C01(Check):
         "pool^holes, (c) every filter arity 0/1 x pool, (d) a 56-template dedicated corpus x 8 data sets x the full "
         "product of 8 boolean environment flags x autoescape x {strict,lax}; L: get_template vs get_template_async "
         "on fresh loaders of 7 kinds x namespace modes x names; A: sync vs async analysis on every corpus program "
-        "and dedicated template. Non-trivial = both renders completed with non-empty output or an error."
+        "and dedicated template; X: liquid.render / Environment.render vs their _async twins on the dedicated corpus. "
+        "The dedicated corpus includes one template per async code line that tools/async_cov.py (line coverage of "
+        "every `async def` in the library under this check) found unexecuted and that is reachable from the "
+        "statement's domain. Non-trivial = both renders completed with non-empty output or an error."
     )
     assumptions = ["render coroutines over dict loaders never suspend (driven with send(None)); file-system loaders run on a private event loop"]
 
@@ -163,6 +196,7 @@ class C01(Check):
             sh.append(("D", combos[i::32]))
         sh += [("L", k) for k in range(len(loader_kinds()))]
         sh += [("A", i, 8) for i in range(8)]
+        sh.append(("X",))
         return sh
 
     def run_shard(self, shard: Any, tier: str) -> Result:
@@ -178,6 +212,8 @@ class C01(Check):
             self.run_dedicated(shard[1], tier, res)
         elif k == "L":
             self.run_loader(shard[1], tier, res)
+        elif k == "X":
+            self.run_api(res)
         else:
             self.run_analysis(shard[1], shard[2], tier, res)
         return res
@@ -305,6 +341,29 @@ class C01(Check):
         finally:
             shutil.rmtree(sandbox, ignore_errors=True)
 
+    # -- convenience render APIs ------------------------------------------------
+    def run_api(self, res: Result) -> None:
+        """liquid.render / liquid.render_async and Environment.render / render_async (source + data in one call)."""
+        import liquid
+
+        env = make_env_desc({"kind": "A", "mode": "strict"})
+        srcs = DEDICATED + ["{{ x }}{{ y.a }}{% for i in a %}{{ i }}{% endfor %}", "{% if %}", "{{ x | nosuchfilter }}", ""]
+        for src in srcs:
+            for lab, data in DATA:
+                kw = {k: v for k, v in data.items() if isinstance(k, str)}
+                for api, sfn, afn in (("liquid.render", liquid.render, liquid.render_async),
+                                      ("Environment.render", env.render, env.render_async)):
+                    with warnings.catch_warnings():
+                        warnings.simplefilter("ignore")
+                        so = U.outcome(lambda: sfn(src, **kw))
+                        ao = U.outcome(lambda: U.run_coro(afn(src, **kw)))
+                    res.case(nontrivial=["X", api, src, lab], outcome="X:" + (so.kind()[0] if not so.ok else "ok"))
+                    if so.kind() != ao.kind():
+                        res.violation({"clause": "render-sync-vs-async", "family": "X", "api": api,
+                                       "sync": "ok" if so.ok else so.error_class, "async": "ok" if ao.ok else ao.error_class},
+                                      f"{api}({src!r}, **{lab}): sync {so.kind()!r} != async {ao.kind()!r}",
+                                      {"part": "X", "api": api, "source": src, "data": lab})
+
     # -- analysis ----------------------------------------------------------------
     def run_analysis(self, i: int, n: int, tier: str, res: Result) -> None:
         env = make_env_desc({"kind": "A", "mode": "strict"})
@@ -341,6 +400,15 @@ class C01(Check):
             finally:
                 shutil.rmtree(sandbox, ignore_errors=True)
         env = make_env_desc({"kind": "A", "mode": "strict"})
+        if part == "X":
+            import liquid
+
+            data = {k: v for k, v in dict(DATA)[case["data"]].items() if isinstance(k, str)}
+            sfn, afn = (liquid.render, liquid.render_async) if case["api"] == "liquid.render" else (env.render, env.render_async)
+            so = U.outcome(lambda: sfn(case["source"], **data))
+            ao = U.outcome(lambda: U.run_coro(afn(case["source"], **data)))
+            return [] if so.kind() == ao.kind() else [{"signature": {"clause": "render-sync-vs-async", "family": "X"},
+                                                       "what": f"sync {so.kind()!r} != async {ao.kind()!r}"}]
         if part == "A":
             return analysis_case(case, env)
         return analyze_tags_case(case, env)
